@@ -351,11 +351,23 @@ class CFG:
             self._node_of[h] = hn
             hnodes.append(hn)
         final_exc = None
+        if st.finalbody:
+            # exceptional routes run a second copy of the final body (built first, in the outer
+            # context, so that node_of() maps the statements to the normal copy built last) and
+            # then re-raise towards the enclosing handlers
+            final_exc = self._new('finally', st, st)
+            exc_out = self._block(st.finalbody, [(final_exc, 'next')])
+            rr = self._new('reraise', st, st)
+            self._connect(exc_out, rr)
+            self._exc_edges(rr)
         ctx = TryCtx(st, hnodes, final_exc)
         self._try_stack.append(ctx)
         body_out = self._block(st.body, frontier)
         self._try_stack.pop()
         out = []
+        if final_exc is not None:
+            # exceptions raised in handler bodies / the else clause also pass the final body
+            self._try_stack.append(TryCtx(st, [], final_exc))
         for h, hn in zip(st.handlers, hnodes):
             self._handler_stack.append(h)
             hn.in_handler = tuple(self._handler_stack)
@@ -365,8 +377,9 @@ class CFG:
             out += self._block(st.orelse, body_out)
         else:
             out += body_out
+        if final_exc is not None:
+            self._try_stack.pop()
         if st.finalbody:
-            # exceptional routes through finally are approximated: they skip it
             out = self._block(st.finalbody, out)
         self._handler_stack = saved_h
         return out
@@ -430,6 +443,21 @@ class CFG:
                 seen.add(s)
                 dq.append(s)
         return seen
+
+    def _with_copies(self, nodes):
+        """a statement of a ``finally`` body has two nodes (normal and exceptional route):
+        a set of nodes given by a rule stands for all copies of the same statements"""
+        nodes = set(nodes)
+        if getattr(self, '_by_ast', None) is None:
+            self._by_ast = {}
+            for n in self.nodes:
+                if n.ast is not None and n.kind in ('stmt', 'test', 'for', 'with'):
+                    self._by_ast.setdefault(id(n.ast), []).append(n)
+        out = set(nodes)
+        for n in nodes:
+            if n.ast is not None and n.kind in ('stmt', 'test', 'for', 'with'):
+                out.update(self._by_ast.get(id(n.ast), ()))
+        return out
 
     def bool_flags(self):
         """locals used as boolean flags: every definition is the constant True or False"""
@@ -510,8 +538,8 @@ class CFG:
         to any node in targets avoiding ``avoid``; None if none.  Paths that
         contradict the value of a boolean flag local set earlier on the same
         path are not considered."""
-        targets = set(targets)
-        avoid = set(avoid)
+        targets = self._with_copies(targets)
+        avoid = self._with_copies(avoid)
         prev = {}
         dq = deque()
         st0 = self.flag_state_in(start)
